@@ -75,6 +75,11 @@ def gen_case(rng: random.Random, tier: str, index: int) -> dict:
         "sched_seed": rng.getrandbits(48),
         "line": rng.random() < (0.15 if tier == "quick" else 0.3),
         "max_steps": 20000,
+        # a second, independent pool consumed in an interleaved fashion by the
+        # same consumer (train / validation iterators of one training loop)
+        "pool2": ({"T": rng.choice([1, 2, 3]), "n": rng.randrange(0, 9),
+                   "pattern": rng.getrandbits(24)}
+                  if rng.random() < 0.25 else None),
     }
 
 
@@ -142,18 +147,54 @@ def run_case(case: dict) -> dict:
             pool = lp.LazyPool(T)
             pool_queues["pool"] = pool
             # ---------------------------------------------- first use
+            p2 = case.get("pool2")
+            other: list = []
             try:
-                with pool:
-                    for r in pool.imap_unordered(f, source(n)):
-                        results.append(r)
-                        sc.log("result", r)
-                        if case["mode"] == "early" and len(
-                                results) >= case["p"]:
-                            break
+                if not p2:
+                    with pool:
+                        for r in pool.imap_unordered(f, source(n)):
+                            results.append(r)
+                            sc.log("result", r)
+                            if case["mode"] == "early" and len(
+                                    results) >= case["p"]:
+                                break
+                else:
+                    probes["two_pools_interleaved"] += 1
+                    pool2 = lp.LazyPool(p2["T"])
+                    with pool, pool2:
+                        g1 = iter(pool.imap_unordered(f, source(n)))
+                        g2 = iter(pool2.imap_unordered(
+                            lambda x: ("o", x), range(p2["n"])))
+                        live = [True, True]
+                        step = 0
+                        while any(live):
+                            which = (p2["pattern"] >> (step % 24)) & 1
+                            step += 1
+                            if not live[which]:
+                                which = 1 - which
+                            try:
+                                r = next(g1 if which == 0 else g2)
+                            except StopIteration:
+                                live[which] = False
+                                continue
+                            if which == 0:
+                                results.append(r)
+                                sc.log("result", r)
+                                if case["mode"] == "early" and len(
+                                        results) >= case["p"]:
+                                    live[0] = False
+                            else:
+                                other.append(r)
             except (S.SimDeadlock, S.SimStepLimit):
                 raise
             except Exception as e:  # pylint: disable=broad-except
                 consumer_exc = e
+            if p2 and consumer_exc is None and collections.Counter(
+                    other) != collections.Counter(
+                        ("o", x) for x in range(p2["n"])):
+                fail("second_pool_wrong_multiset",
+                     f"interleaved second pool T={p2['T']} n={p2['n']}: "
+                     f"{sorted(other)}")
             sc.log("consumer_done", type(consumer_exc).__name__)
             # ---------------------------------------------- oracle, pass 1
             expected_all = collections.Counter(
@@ -285,6 +326,8 @@ def shrink(case: dict):
 
     if case["reuse"]:
         yield variant(reuse=False)
+    if case.get("pool2"):
+        yield variant(pool2=None)
     if case["line"]:
         yield variant(line=False)
     if case["T"] > 1:
@@ -323,6 +366,7 @@ def reach(agg: dict) -> list[str]:
     if agg["evaluations"] < 200:
         need.append("fewer than 200 runs")
     for name in ("prefill_contained_sentinels", "early_exit", "pool_reused",
+                 "two_pools_interleaved",
                  "n_between_T_and_prefill"):
         if not p.get(name):
             need.append(f"probe {name} never hit")
